@@ -96,12 +96,26 @@ Definition in_subset (bbs : list bbdef) (m : vmodule) : bool :=
   (* one driver per net, inputs undriven *)
   bool_decide (NoDup (module_defs bbs m)) &&
   forallb (λ n, bool_decide (n ∉ sset (decl_inputs m))) (module_defs bbs m) &&
-  (* every output is a net of some statement *)
-  bool_decide (sset (decl_outputs m) ⊆ sset (used_nets m)) &&
+  (* every output is an input or a driven net (assign target, primitive output, net on a blackbox output pin): an output that
+     no statement turns into a node - never mentioned, or only as operands of a parity gate that cancel - is an undriven
+     output; the reader rejects such text with an exception *)
+  bool_decide (sset (decl_outputs m) ⊆ sset (decl_inputs m) ∪ sset (module_defs bbs m)) &&
   (* nets are not named like pin nodes *)
   forallb (λ x, forallb (λ p, negb (bool_decide (pin x.1.1 p ∈ sset (module_nets m)))) (elements (bb_in x.1.2 ∪ bb_out x.1.2))) (bb_insts bbs m) &&
   (* combinational loops have no functional meaning *)
   (let dg := dep_graph m in check_rank dg (quick_ranks dg)).
+
+(* the guard without the clause on outputs, and: some declared output is no input, has no driver and occurs in no statement *)
+Definition in_subset_core (bbs : list bbdef) (m : vmodule) : bool :=
+  forallb (λ it, match it with IInst mn insts => forallb (inst_ok bbs mn) insts && negb (bool_decide (insts = []))
+                          | IAssign l => negb (bool_decide (l = []))
+                          | IInput l | IOutput l | IWire l => negb (bool_decide (l = [])) end) (m_items m) &&
+  bool_decide (NoDup ((bb_insts bbs m).*1.*1)) &&
+  bool_decide (NoDup (module_defs bbs m)) &&
+  forallb (λ n, bool_decide (n ∉ sset (decl_inputs m))) (module_defs bbs m) &&
+  forallb (λ x, forallb (λ p, negb (bool_decide (pin x.1.1 p ∈ sset (module_nets m)))) (elements (bb_in x.1.2 ∪ bb_out x.1.2))) (bb_insts bbs m).
+Definition unused_output (bbs : list bbdef) (m : vmodule) : bool :=
+  existsb (λ s, bool_decide (s ∉ sset (decl_inputs m) ∪ sset (module_defs bbs m) ∪ sset (used_nets m))) (decl_outputs m).
 
 (* direct evaluation of the module: iterate the equations from the free nets *)
 Definition lookup_val (a : val) (vm : gmap string bool) : val := λ s, match vm !! s with Some b => b | None => a s end.
@@ -188,6 +202,8 @@ Definition denotes (bbs : list bbdef) (m : vmodule) (C : Circuit) : bool :=
 (* ------------------------------------------------------------------ holds: the property on the recorded result *)
 Definition holds_read (bbs : list bbdef) (m : vmodule) (obs : res Circuit) : bool :=
   if negb (ports_match m) then match obs with Raise _ => true | _ => false end     (* never silently accepted *)
+  else if in_subset_core bbs m && unused_output bbs m then match obs with Raise _ => true | _ => false end
+                                                   (* an output that can never become a node: rejected with an exception *)
   else if in_subset bbs m then match obs with Ok C => denotes bbs m C | _ => false end
   else true.
 Definition holds (k : case) : bool :=
